@@ -51,9 +51,19 @@ type d2Entry struct {
 	id   string
 	kind string
 	hash string
-	data []byte // expected logical bytes (CAS, RAW, AC via api)
+	data []byte // expected logical bytes (CAS, RAW, AC via api); dropped for CAS once judged
+	size int64
 	ar   *pb.ActionResult
 	path string
+}
+
+// release drops the content of a judged CAS entry (its sha256 is the key, so
+// the restart pass can still verify it) to bound memory in the thorough tier.
+func (e *d2Entry) release() {
+	if e.kind == "cas" {
+		e.size = int64(len(e.data))
+		e.data = nil
+	}
 }
 
 var d2UploadPaths = []string{
@@ -125,8 +135,8 @@ type d2World struct {
 func dir2Cfg(r *lib.Run, c cfg, ci int, n int) {
 	rng := r.Rng("dir2/" + c.String())
 	px := &d2Proxy{FakeProxy: lib.NewFakeProxy(c.storage == "zstd"), puts: map[string]lib.ProxyPut{}}
-	dir := lib.MkTemp("c20d2")
-	defer func() { _ = os.RemoveAll(dir) }()
+	dir := dirs.Get()
+	defer dirs.Put(dir)
 	srv, err := lib.StartServer(lib.ServerOpts{Dir: dir, MaxSize: bigCache, Storage: c.storage, ZstdImpl: c.impl, Proxy: px, RawHTTP: true, KeepDir: true})
 	if err != nil {
 		r.Inconclusive("dir2: cannot start server: " + err.Error())
@@ -169,7 +179,11 @@ func dir2Cfg(r *lib.Run, c cfg, ci int, n int) {
 	// Restart without backend under the other zstd implementation: what the
 	// build wrote must still be served byte-exactly.
 	other := cfg{c.storage, map[string]string{"go": "cgo", "cgo": "go"}[c.impl]}
-	c2, _, err := lib.NewCache(lib.ServerOpts{Dir: dir, MaxSize: bigCache, Storage: other.storage, ZstdImpl: other.impl})
+	c2, err, timedOut := openBounded(lib.ServerOpts{Dir: dir, MaxSize: bigCache, Storage: other.storage, ZstdImpl: other.impl})
+	if timedOut {
+		r.Inconclusive(fmt.Sprintf("dir2: reopening the directory written under %s did not finish within %s", c, openMax))
+		return
+	}
 	r.Eval()
 	if err != nil {
 		r.Violation("C20:dir2:restart:directory-rejected", "the build cannot reopen the directory it wrote: "+short(err.Error()), map[string]any{"cfg": c.String()})
@@ -182,6 +196,12 @@ func dir2Cfg(r *lib.Run, c cfg, ci int, n int) {
 		switch {
 		case o.problem() != "":
 			r.Violation("C20:dir2:restart:"+e.kind+":"+o.problem(), "entry written by the build is not served after a restart: "+short(o.err+o.panic), map[string]any{"cfg": c.String(), "entry": e.id, "written_via": e.path, "hash": e.hash})
+		case e.kind == "cas" && want == nil:
+			if int64(len(o.data)) != e.size || lib.Sha256Hex(o.data) != e.hash {
+				r.Violation("C20:dir2:restart:cas:wrong-bytes", fmt.Sprintf("after a restart the entry reads as %d bytes with sha256 %s, expected %d bytes with sha256 %s", len(o.data), lib.Sha256Hex(o.data), e.size, e.hash), map[string]any{"cfg": c.String(), "entry": e.id, "written_via": e.path, "hash": e.hash})
+			} else {
+				r.Count("dir2.restart.ok")
+			}
 		case e.ar != nil && want == nil:
 			got := &pb.ActionResult{}
 			if proto.Unmarshal(o.data, got) != nil || !proto.Equal(got, e.ar) {
@@ -205,22 +225,32 @@ func (w *d2World) violation(key, what string, e *d2Entry, extra map[string]any) 
 	w.r.Violation(key, what, det)
 }
 
-// newEntry generates the content for one case.
+// newEntry generates the content for one case. Keys are unique within the
+// world (tiny blobs have few possible values: a repeated digest would be an
+// upload of an existing blob, which the server rightly short-circuits).
 func (w *d2World) newEntry(id, path string) *d2Entry {
-	e := &d2Entry{id: id, path: path, kind: d2Kind(path)}
-	defer func() { w.keys[e.kind+"/"+e.hash] = true }()
-	switch e.kind {
-	case "cas":
-		e.data = lib.GenBlob(w.rng, d2Size(w.rng, path), lib.Pick(w.rng, lib.ContentKinds), id)
-		e.hash = lib.Sha256Hex(e.data)
-	case "ac":
-		e.ar, e.data = makeAR(w.rng, id, lib.Pick(w.rng, []int{0, 10, 5000, 40000}))
-		e.hash = lib.RandHash(w.rng)
-	default:
-		e.data = lib.GenBlob(w.rng, lib.Pick(w.rng, []int{1, 100, 4096, 40000, 70001}), lib.Pick(w.rng, lib.ContentKinds), id)
-		e.hash = lib.RandHash(w.rng)
+	for try := 0; ; try++ {
+		e := &d2Entry{id: id, path: path, kind: d2Kind(path)}
+		switch e.kind {
+		case "cas":
+			size := d2Size(w.rng, path)
+			if try > 20 {
+				size += 3 + try
+			}
+			e.data = lib.GenBlob(w.rng, size, lib.Pick(w.rng, lib.ContentKinds), id)
+			e.hash = lib.Sha256Hex(e.data)
+		case "ac":
+			e.ar, e.data = makeAR(w.rng, id, lib.Pick(w.rng, []int{0, 10, 5000, 40000}))
+			e.hash = lib.RandHash(w.rng)
+		default:
+			e.data = lib.GenBlob(w.rng, lib.Pick(w.rng, []int{1, 100, 4096, 40000, 70001}), lib.Pick(w.rng, lib.ContentKinds), id)
+			e.hash = lib.RandHash(w.rng)
+		}
+		if !w.keys[e.kind+"/"+e.hash] {
+			w.keys[e.kind+"/"+e.hash] = true
+			return e
+		}
 	}
-	return e
 }
 
 func (w *d2World) zstdPayload(data []byte) []byte {
@@ -301,6 +331,7 @@ func (w *d2World) upload(id, path string) {
 	}
 	w.srv.Settle(settleMax)
 	w.all = append(w.all, e)
+	defer e.release()
 	r.Distinct("dir2", w.c.String(), path, e.kind, lib.SizeClassName(int(n)))
 	r.Sample(map[string]any{"section": "dir2", "cfg": w.c.String(), "path": path, "kind": e.kind, "hash": e.hash, "size": n})
 
@@ -478,14 +509,14 @@ func (w *d2World) fetch(id, path string) {
 			}
 			r.Count("dir2.fetch.fetch-api-get-offset.ok")
 		}
-		b, err := w.srv.BSRead(ctx, lib.ResBlobs(e.hash, n), off, 0)
+		b, err := bsRead(ctx, w.srv, lib.ResBlobs(e.hash, n), off, 0, len(e.data))
 		o.found, o.data = true, b
 		want = e.data[off:]
 		if err != nil {
 			o.err = err.Error()
 		}
 	case "fetch-bs-read-zstd":
-		b, err := w.srv.BSRead(ctx, lib.ResZstd(e.hash, n), 0, 0)
+		b, err := bsRead(ctx, w.srv, lib.ResZstd(e.hash, n), 0, 0, len(e.data))
 		o.found = true
 		if err != nil {
 			o.err = err.Error()
@@ -528,6 +559,7 @@ func (w *d2World) fetch(id, path string) {
 	}
 	w.srv.Settle(settleMax)
 	w.all = append(w.all, e)
+	defer e.release()
 	r.Distinct("dir2", w.c.String(), path, e.kind, lib.SizeClassName(int(n)), chunkClass(cs))
 	if !w.checkStored(e, "fetch") {
 		return
